@@ -53,7 +53,7 @@ func f12() {
 				if fn.Recv != nil && len(fn.Recv.List) == 1 {
 					recv = exprStr(fn.Recv.List[0].Type) + "."
 				}
-				k := &skel{}
+				k := &skel{ren: localNames(fn)}
 				k.block(fn.Body)
 				toks = append(toks, "func "+s.file+":"+recv+fn.Name.Name+" {")
 				toks = append(toks, k.toks...)
